@@ -161,7 +161,8 @@ def _check(world: World, host: AppHost, session: Session, out: Outcome) -> None:
             for entry in inst.sends:
                 if entry[0] > disc_seq and entry[3] in ("pending", "cancelled"):
                     bad("send-after-close-hangs", f"{inst.tag!r}: send({entry[2]['type']}) issued after "
-                        f"http.disconnect never returned", proto=proto)
+                        f"http.disconnect never returned", proto=proto,
+                        cause=_conn_cause(world, host, reqs, req))
                     break
             for entry in inst.sends:
                 if entry[0] > disc_seq and str(entry[3]).startswith("raised"):
@@ -189,6 +190,19 @@ def _check(world: World, host: AppHost, session: Session, out: Outcome) -> None:
                         proto=plan.proto, count=min(len(recs), 2), kind="404")
 
 
+def _conn_cause(world: World, host: AppHost, reqs: Dict[bytes, Req], req: Any) -> str:
+    """recv-queue-full when some instance of the same connection sits in a send() that never returned
+    while its receive queue holds max_app_queue_size unread messages (known finding F06)."""
+    if req is None:
+        return "other"
+    for other in host.instances:
+        oreq = reqs.get(other.tag)
+        if oreq is not None and oreq.conn_index == req.conn_index and _blocked_in_send(other) != "no" \
+                and len(other.leftover) >= world.config.max_app_queue_size:
+            return "recv-queue-full"
+    return "other"
+
+
 def _blocked_in_send(inst: Instance) -> str:
     if inst.sends and inst.sends[-1][3] in ("cancelled", "pending"):
         last = inst.sends[-1][2]
@@ -202,7 +216,10 @@ def _owed_disconnect(session: Session, req: Any, inst: Instance) -> bool:
     for entry in inst.sends:
         m = entry[2]
         if m.get("type") == "http.response.body" and not m.get("more_body", False):
-            return True  # the application completed its response: end of request
+            if entry[3] == "ok":
+                return True  # the application completed its response: end of request
+            if len(inst.leftover) >= session.world.config.max_app_queue_size:
+                return True  # stuck in the completing send behind a full receive queue (F06)
     conn = session.conns[req.conn_index].conn if req is not None else None
     if conn is None:
         return False
